@@ -2,14 +2,13 @@
 //@ props C16 C01
 //@ kind L
 //@ entry h_ser_primitives
-//@ note L: loop-free; symbolic buffer size 8 <= fBufSize <= 2^20 (heap block of exactly fBufSize bytes), symbolic cursor offset 0..fBufSize, symbolic value (every bit pattern of the type, floats compared bitwise), each of the 14 primitive pairs selected by a symbolic tag
+//@ note L: loop-free; every buffer size 8 <= fBufSize <= 24 (one static object of exactly fBufSize bytes each: all residues mod 8 twice; a heap block of symbolic size makes cbmc's array post-processing diverge), symbolic cursor offset 0..fBufSize, symbolic value (every bit pattern of the type, floats compared bitwise), each of the 14 primitive pairs selected by a symbolic tag; for larger buffers the code is assumed parametric in fBufSize (it enters only through fBufEnd / fBufLoadMax = fBufStart + fBufSize in the room test)
 //@ note fBufSize >= 8 is required for safety (an 8-byte primitive must fit into an empty buffer); the constructors accept any bufSize (default 8192) -- recorded as a precondition of the engine, see final report
 //@ note alignment is computed by the code from the ADDRESS of fBufCur; cbmc's address of (object, offset) is congruent to offset mod 8, i.e. the unit assumes fBufStart is 8-byte aligned in the storing and in the loading engine (true for MemoryManagerImpl / operator new)
 //@ note flushBuffer / fillBuffer are stubs that do what unit ser_fillflush proves of the real bodies (cursor back to fBufStart, fBufLoadMax = fBufStart + fBufSize, counter FLUSHED / FILLED); the same heap block stands for "the block the cursor is in" on both sides, so a value written after a flush is read after the matching fill
 //@ note store-then-load symmetry = same number of flushes as fills, same final cursor offset, same value
 #define VERIF_DEFINE_GHOSTS
 #include "verif_prelude.h"
-#include <stdlib.h>
 //@ include XSerializeEngine_common.inc
 
 int FLUSHED, FILLED;
@@ -227,7 +226,12 @@ call checkAndFillBuffer => XSerializeEngine_checkAndFillBuffer
 throws XSerializeEngine_checkAndFillBuffer
 @*/
 
-#define BSMAX ((XMLSize_t)1 << 20)
+/* one buffer OBJECT per size, so that cbmc's object bounds are exactly [fBufStart, fBufStart + fBufSize) */
+#define BUFS(X) X(8) X(9) X(10) X(11) X(12) X(13) X(14) X(15) X(16) X(17) X(18) X(19) X(20) X(21) X(22) X(23) X(24)
+#define DECL(n) static XMLByte BUF##n[n] __attribute__((aligned(8)));
+#define SEL(n) case n: buf = BUF##n; break;
+BUFS(DECL)
+#define BSMAX 24
 union val { XMLCh xch; XMLByte by; bool b; char ch; short sh; int i; unsigned int ui; long l; unsigned long ul; float f; double d;
             XMLSize_t sz; XMLInt64 i64; XMLUInt64 u64; unsigned char raw[8]; };
 
@@ -236,8 +240,8 @@ void h_ser_primitives(void)
   XMLSize_t bs, off; int ty; unsigned long cnt0; union val v, w; _Bool bb;
   VERIF_INPUT(bs); VERIF_INPUT(off); VERIF_INPUT(ty); VERIF_INPUT(cnt0); VERIF_INPUT(v); VERIF_INPUT(w); VERIF_INPUT(bb);
   VERIF_ASSUME(bs >= 8 && bs <= BSMAX && off <= bs && ty >= 0 && ty <= 13);
-  XMLByte *buf = malloc(bs);
-  __CPROVER_assume(buf != 0);
+  XMLByte *buf = 0;
+  switch (bs) { BUFS(SEL) default: break; }
   if (ty == 2) v.b = bb;                 /* a bool object holds 0 or 1 */
 
   /* ---- store ---- */
